@@ -1,6 +1,461 @@
-//! C13 harnesses (see /verif/kani/README.md for conventions)
+//! C13: `Int` behaves as a two's-complement mathematical integer.
+//!
+//! I64 against i64/i128 arithmetic, I128 against i128 arithmetic (`checked_*`, `overflowing_*`, `wrapping_*` of the
+//! primitive type). Addition, subtraction, negation, sign/abs decomposition, predicates, comparison, resize and
+//! conversions: operands fully symbolic. Multiplication: one operand fully symbolic, the other drawn from the
+//! alphabet {0, 1, -1, 2, -2, MIN, MAX, 2^31} (iterated, so every product has one constant factor); squares: operand
+//! k * 2^e with k an arbitrary i8 and e in a small list that straddles the overflow boundary.
 use crate::*;
+use crate::util::*;
 use crypto_bigint::*;
+use core::cmp::Ordering;
+use subtle::{Choice, ConstantTimeEq, ConstantTimeGreater, ConstantTimeLess, CtOption};
+
+#[cfg(kani)]
+fn no_return() { unsafe { let _ = 255u8.unchecked_add(1); } }
+#[cfg(not(kani))]
+fn no_return() {}
+
+fn opt<T>(o: CtOption<T>) -> Option<T> { Option::from(o) }
+fn ck<T>(v: T, valid: bool) -> Checked<T> { Checked(CtOption::new(v, Choice::from(valid as u8))) }
+fn cc(b: bool) -> ConstChoice { if b { ConstChoice::TRUE } else { ConstChoice::FALSE } }
+
+fn i64_of(x: &I64) -> i64 { x.as_words()[0] as i64 }
+fn i128_of(x: &I128) -> i128 { let w = x.as_words(); (w[0] as u128 | ((w[1] as u128) << 64)) as i128 }
+fn mki64(a: i64) -> I64 { I64::from_words([a as u64]) }
+fn mki128(a: i128) -> I128 { I128::from_words([a as u128 as u64, ((a as u128) >> 64) as u64]) }
+
+/// non-panicking routes to a + b; `$exp` = wrapped sum, `$ovf` = true sum outside [MIN, MAX]
+macro_rules! int_add_forms {
+    ($s:ident, $T:ty, $a:expr, $b:expr, $exp:expr, $ovf:expr) => {{
+        let (a, b, exp, ovf): ($T, $T, $T, bool) = ($a, $b, $exp, $ovf);
+        match Option::<$T>::from(a.checked_add(&b)) { Some(v) => { assert!(!ovf); assert!(v == exp); } None => assert!(ovf) }
+        match opt(CheckedAdd::checked_add(&a, &b)) { Some(v) => { assert!(!ovf); assert!(v == exp); } None => assert!(ovf) }
+        let (v, o) = a.overflowing_add(&b); assert!(v == exp && bool::from(o) == ovf);
+        assert!(a.wrapping_add(&b) == exp);
+        assert!(WrappingAdd::wrapping_add(&a, &b) == exp);
+        let (wa, wb) = (Wrapping(a), Wrapping(b));
+        assert!((wa + wb).0 == exp && (wa + &wb).0 == exp && (&wa + wb).0 == exp && (&wa + &wb).0 == exp);
+        let mut w = wa; w += wb; assert!(w.0 == exp);
+        let mut w = wa; w += &wb; assert!(w.0 == exp);
+        let (va, vb) = ($s.bool(), $s.bool());
+        let (ca, cb) = (ck(a, va), ck(b, vb));
+        let want = va && vb && !ovf;
+        let mut c5 = ca; c5 += cb;
+        let mut c6 = ca; c6 += &cb;
+        let rs = [ca + cb, ca + &cb, &ca + cb, &ca + &cb, c5, c6];
+        let mut i = 0;
+        while i < 6 { match opt(rs[i].0) { Some(v) => { assert!(want); assert!(v == exp); } None => assert!(!want) } i += 1; }
+    }};
+}
+macro_rules! int_sub_forms {
+    ($s:ident, $T:ty, $a:expr, $b:expr, $exp:expr, $ovf:expr) => {{
+        let (a, b, exp, ovf): ($T, $T, $T, bool) = ($a, $b, $exp, $ovf);
+        match opt(CheckedSub::checked_sub(&a, &b)) { Some(v) => { assert!(!ovf); assert!(v == exp); } None => assert!(ovf) }
+        assert!(WrappingSub::wrapping_sub(&a, &b) == exp);
+        let (wa, wb) = (Wrapping(a), Wrapping(b));
+        assert!((wa - wb).0 == exp && (wa - &wb).0 == exp && (&wa - wb).0 == exp && (&wa - &wb).0 == exp);
+        let mut w = wa; w -= wb; assert!(w.0 == exp);
+        let mut w = wa; w -= &wb; assert!(w.0 == exp);
+        let (va, vb) = ($s.bool(), $s.bool());
+        let (ca, cb) = (ck(a, va), ck(b, vb));
+        let want = va && vb && !ovf;
+        let mut c5 = ca; c5 -= cb;
+        let mut c6 = ca; c6 -= &cb;
+        let rs = [ca - cb, ca - &cb, &ca - cb, &ca - &cb, c5, c6];
+        let mut i = 0;
+        while i < 6 { match opt(rs[i].0) { Some(v) => { assert!(want); assert!(v == exp); } None => assert!(!want) } i += 1; }
+    }};
+}
+/// negation routes; `$exp` = wrapped negation, `$ovf` = (a == MIN)
+macro_rules! int_neg_forms {
+    ($T:ty, $a:expr, $exp:expr, $ovf:expr) => {{
+        let (a, exp, ovf): ($T, $T, bool) = ($a, $exp, $ovf);
+        let (v, o) = a.overflowing_neg(); assert!(v == exp && bool::from(o) == ovf);
+        assert!(a.wrapping_neg() == exp);
+        assert!(a.wrapping_neg_if(ConstChoice::TRUE) == exp && a.wrapping_neg_if(ConstChoice::FALSE) == a);
+        match Option::<$T>::from(a.checked_neg()) { Some(v) => { assert!(!ovf); assert!(v == exp); } None => assert!(ovf) }
+    }};
+}
+/// operator routes: 0 `a + b`, 1 `a + &b`, 2 `a += b`, 3 `a += &b`
+fn int_add_op<const L: usize>(f: u8, a: Int<L>, b: Int<L>) -> Int<L> {
+    match f { 0 => a + b, 1 => a + &b, 2 => { let mut x = a; x += b; x } _ => { let mut x = a; x += &b; x } }
+}
+/// 0 `a - b`, 1 `a - &b` (there is no `-=` on Int)
+fn int_sub_op<const L: usize>(f: u8, a: Int<L>, b: Int<L>) -> Int<L> { if f == 0 { a - b } else { a - &b } }
+/// 0 `a * b`, 1 `a * &b`, 2 `&a * b`, 3 `&a * &b`
+fn int_mul_op<const L: usize, const R: usize>(f: u8, a: Int<L>, b: Int<R>) -> Int<L> {
+    match f { 0 => a * b, 1 => a * &b, 2 => &a * b, _ => &a * &b }
+}
+fn int_mul_uint_op<const L: usize, const R: usize>(f: u8, a: Int<L>, b: Uint<R>) -> Int<L> {
+    match f { 0 => a * b, 1 => a * &b, 2 => &a * b, _ => &a * &b }
+}
+
+/// full alphabet (used where the oracle is `checked_mul` of the primitive type)
+const ALPHA64: [i64; 8] = [0, 1, -1, 2, -2, i64::MIN, i64::MAX, 1 << 31];
+const UALPHA64: [u64; 6] = [0, 1, 2, 1 << 31, 1 << 63, u64::MAX];
+/// sparse alphabet (at most two set bits in the magnitude): CBMC does not get through "symbolic x dense constant"
+/// when the full double-width product is compared (MAX = 2^63 - 1 alone: > 4 min)
+const ALPHA64S: [i64; 9] = [0, 1, -1, 2, -2, i64::MIN, 1 << 31, -(1 << 62), 3];
+const ALPHA128S: [i128; 9] = [0, 1, -1, 2, -2, i128::MIN, 1 << 31, -(1 << 126), 3];
+const UALPHA64S: [u64; 6] = [0, 1, 2, 3, 1 << 31, 1 << 63];
+
+fn mul_ops_ok<S: Src>(s: &mut S, swap: bool) {
+    let (a, f) = (s.i64(), s.u8()); s.assume(f < 4);
+    let mut k = 0;
+    while k < ALPHA64S.len() {
+        let b = ALPHA64S[k];
+        if let Some(p) = a.checked_mul(b) {
+            let r = if swap { int_mul_op(f, mki64(b), mki64(a)) } else { int_mul_op(f, mki64(a), mki64(b)) };
+            assert!(i64_of(&r) == p);
+        }
+        k += 1;
+    }
+}
+fn mul_ops_panic<S: Src>(s: &mut S, swap: bool) {
+    let (a, f, sel) = (s.i64(), s.u8(), s.usize()); s.assume(f < 4);
+    let mut k = 0;
+    while k < ALPHA64S.len() {
+        let b = ALPHA64S[k];
+        if sel == k && a.checked_mul(b).is_none() {
+            let _ = if swap { int_mul_op(f, mki64(b), mki64(a)) } else { int_mul_op(f, mki64(a), mki64(b)) };
+            no_return();
+        }
+        k += 1;
+    }
+}
+
+fn checked_wrapper_mul<S: Src>(s: &mut S, lhs_ref: bool) {
+    let (a, va, vb) = (s.i64(), s.bool(), s.bool()); let x = mki64(a);
+    let mut k = 0;
+    while k < ALPHA64.len() {
+        let b = ALPHA64[k]; let y = mki64(b);
+        let want = if va && vb { a.checked_mul(b) } else { None };
+        let (cx, cy) = (ck(x, va), ck(y, vb));
+        let (r1, r2) = if lhs_ref { (&cx * cy, &cx * &cy) } else { (cx * cy, cx * &cy) };
+        match opt(r1.0) { Some(v) => assert!(want == Some(i64_of(&v))), None => assert!(want.is_none()) }
+        match opt(r2.0) { Some(v) => assert!(want == Some(i64_of(&v))), None => assert!(want.is_none()) }
+        k += 1;
+    }
+}
 
 harnesses! {
+    // ------------------------------------------------------------------ add / sub / neg
+    /// I64 +: checked (inherent, trait), overflowing, wrapping (inherent, trait), Wrapping<I64>, Checked<I64>
+    fn c13_i64_add_forms(s) {
+        let (a, b) = (s.i64(), s.i64());
+        let (t, o) = a.overflowing_add(b);
+        int_add_forms!(s, I64, mki64(a), mki64(b), mki64(t), o);
+    }
+    fn c13_i64_sub_forms(s) {
+        let (a, b) = (s.i64(), s.i64());
+        let (t, o) = a.overflowing_sub(b);
+        int_sub_forms!(s, I64, mki64(a), mki64(b), mki64(t), o);
+    }
+    fn c13_i64_neg_forms(s) {
+        let a = s.i64();
+        int_neg_forms!(I64, mki64(a), mki64(a.wrapping_neg()), a == i64::MIN);
+    }
+    fn c13_i128_add_forms(s) {
+        let (a, b) = (s.i128(), s.i128());
+        let (t, o) = a.overflowing_add(b);
+        int_add_forms!(s, I128, mki128(a), mki128(b), mki128(t), o);
+    }
+    fn c13_i128_sub_forms(s) {
+        let (a, b) = (s.i128(), s.i128());
+        let (t, o) = a.overflowing_sub(b);
+        int_sub_forms!(s, I128, mki128(a), mki128(b), mki128(t), o);
+    }
+    fn c13_i128_neg_forms(s) {
+        let a = s.i128();
+        int_neg_forms!(I128, mki128(a), mki128(a.wrapping_neg()), a == i128::MIN);
+    }
+    /// `+ +& += +=&` and `- -&` exact when the true result is in [MIN, MAX]
+    fn c13_i64_ops_ok(s) {
+        let (a, b) = (s.i64(), s.i64());
+        if let Some(t) = a.checked_add(b) { let mut f = 0; while f < 4 { assert!(i64_of(&int_add_op(f, mki64(a), mki64(b))) == t); f += 1; } }
+        if let Some(t) = a.checked_sub(b) { let mut f = 0; while f < 2 { assert!(i64_of(&int_sub_op(f, mki64(a), mki64(b))) == t); f += 1; } }
+        s.cover(a.checked_add(b).is_some() && a < 0 && b > 0); s.cover(a.checked_sub(b).is_some() && b == i64::MIN);
+    }
+    /// every + route panics for every overflowing pair
+    #[kani::should_panic]
+    fn c13_i64_add_ops_panic(s) {
+        let (a, b, f) = (s.i64(), s.i64(), s.u8()); s.assume(a.checked_add(b).is_none() && f < 4);
+        let _ = int_add_op(f, mki64(a), mki64(b)); no_return();
+    }
+    #[kani::should_panic]
+    fn c13_i64_sub_ops_panic(s) {
+        let (a, b, f) = (s.i64(), s.i64(), s.u8()); s.assume(a.checked_sub(b).is_none() && f < 2);
+        let _ = int_sub_op(f, mki64(a), mki64(b)); no_return();
+    }
+    fn c13_i128_ops_ok(s) {
+        let (a, b) = (s.i128(), s.i128());
+        if let Some(t) = a.checked_add(b) { let mut f = 0; while f < 4 { assert!(i128_of(&int_add_op(f, mki128(a), mki128(b))) == t); f += 1; } }
+        if let Some(t) = a.checked_sub(b) { let mut f = 0; while f < 2 { assert!(i128_of(&int_sub_op(f, mki128(a), mki128(b))) == t); f += 1; } }
+        s.cover(a.checked_add(b).is_some() && a < 0 && b > 0); s.cover(a.checked_sub(b).is_some() && b == i128::MIN);
+    }
+    #[kani::should_panic]
+    fn c13_i128_add_ops_panic(s) {
+        let (a, b, f) = (s.i128(), s.i128(), s.u8()); s.assume(a.checked_add(b).is_none() && f < 4);
+        let _ = int_add_op(f, mki128(a), mki128(b)); no_return();
+    }
+    #[kani::should_panic]
+    fn c13_i128_sub_ops_panic(s) {
+        let (a, b, f) = (s.i128(), s.i128(), s.u8()); s.assume(a.checked_sub(b).is_none() && f < 2);
+        let _ = int_sub_op(f, mki128(a), mki128(b)); no_return();
+    }
+
+    // ------------------------------------------------------------------ sign, abs, predicates, comparison
+    /// abs_sign / abs / new_from_abs_sign (every magnitude, both signs: fits iff m <= MAX or (negative and m == 2^63),
+    /// negative zero gives 0) / is_negative / is_positive / is_min / is_max, constants
+    fn c13_i64_sign(s) {
+        let (a, m, neg) = (s.i64(), s.u64(), s.bool());
+        let x = mki64(a);
+        let (abs, sg) = x.abs_sign();
+        assert!(u64_of(&abs) == a.unsigned_abs() && bool::from(sg) == (a < 0));
+        assert!(u64_of(&x.abs()) == a.unsigned_abs());
+        assert!(bool::from(x.is_negative()) == (a < 0) && bool::from(x.is_positive()) == (a > 0));
+        assert!(bool::from(x.is_min()) == (a == i64::MIN) && bool::from(x.is_max()) == (a == i64::MAX));
+        let want: Option<i64> = if !neg { if m <= i64::MAX as u64 { Some(m as i64) } else { None } }
+                                else if m <= 1u64 << 63 { Some((m as i64).wrapping_neg()) } else { None };
+        match Option::<I64>::from(I64::new_from_abs_sign(mk64(m), cc(neg))) { Some(v) => assert!(want == Some(i64_of(&v))), None => assert!(want.is_none()) }
+        // round trip
+        let back = Option::<I64>::from(I64::new_from_abs_sign(abs, sg));
+        assert!(back.is_some() && back.unwrap() == x);
+        assert!(i64_of(&I64::MIN) == i64::MIN && i64_of(&I64::MAX) == i64::MAX && i64_of(&I64::MINUS_ONE) == -1);
+        assert!(i64_of(&I64::ZERO) == 0 && i64_of(&I64::ONE) == 1);
+    }
+    fn c13_i128_sign(s) {
+        let (a, m, neg) = (s.i128(), s.u128(), s.bool());
+        let x = mki128(a);
+        let (abs, sg) = x.abs_sign();
+        assert!(u128_of(&abs) == a.unsigned_abs() && bool::from(sg) == (a < 0));
+        assert!(u128_of(&x.abs()) == a.unsigned_abs());
+        assert!(bool::from(x.is_negative()) == (a < 0) && bool::from(x.is_positive()) == (a > 0));
+        assert!(bool::from(x.is_min()) == (a == i128::MIN) && bool::from(x.is_max()) == (a == i128::MAX));
+        let want: Option<i128> = if !neg { if m <= i128::MAX as u128 { Some(m as i128) } else { None } }
+                                 else if m <= 1u128 << 127 { Some((m as i128).wrapping_neg()) } else { None };
+        match Option::<I128>::from(I128::new_from_abs_sign(mk128(m), cc(neg))) { Some(v) => assert!(want == Some(i128_of(&v))), None => assert!(want.is_none()) }
+        let back = Option::<I128>::from(I128::new_from_abs_sign(abs, sg));
+        assert!(back.is_some() && back.unwrap() == x);
+        assert!(i128_of(&I128::MIN) == i128::MIN && i128_of(&I128::MAX) == i128::MAX && i128_of(&I128::MINUS_ONE) == -1);
+    }
+    /// Ord / PartialOrd / PartialEq / cmp_vartime / ct_eq / ct_gt / ct_lt agree with the signed order
+    fn c13_i64_cmp(s) {
+        let (a, b) = (s.i64(), s.i64());
+        let (x, y) = (mki64(a), mki64(b));
+        assert!(Ord::cmp(&x, &y) == a.cmp(&b) && x.partial_cmp(&y) == Some(a.cmp(&b)) && x.cmp_vartime(&y) == a.cmp(&b));
+        assert!((x == y) == (a == b) && (x < y) == (a < b) && (x >= y) == (a >= b));
+        assert!(bool::from(x.ct_eq(&y)) == (a == b) && bool::from(x.ct_gt(&y)) == (a > b) && bool::from(x.ct_lt(&y)) == (a < b));
+    }
+    fn c13_i128_cmp(s) {
+        let (a, b) = (s.i128(), s.i128());
+        let (x, y) = (mki128(a), mki128(b));
+        assert!(Ord::cmp(&x, &y) == a.cmp(&b) && x.partial_cmp(&y) == Some(a.cmp(&b)) && x.cmp_vartime(&y) == a.cmp(&b));
+        assert!((x == y) == (a == b) && (x < y) == (a < b) && (x >= y) == (a >= b));
+        assert!(bool::from(x.ct_eq(&y)) == (a == b) && bool::from(x.ct_gt(&y)) == (a > b) && bool::from(x.ct_lt(&y)) == (a < b));
+    }
+
+    // ------------------------------------------------------------------ resize, conversions
+    /// resize: widening sign-extends (I64 -> I128 -> Int<3>), narrowing keeps the low limbs, same width is the identity;
+    /// `From<&Int<L>> for Int<L2>` is resize
+    fn c13_resize(s) {
+        let (a, b) = (s.i64(), s.i128());
+        let x = mki64(a);
+        assert!(i128_of(&x.resize::<2>()) == a as i128);
+        assert!(i64_of(&x.resize::<1>()) == a);
+        assert!(i128_of(&I128::from(&x)) == a as i128);
+        let y = mki128(b);
+        assert!(i64_of(&y.resize::<1>()) == b as i64);
+        assert!(i64_of(&I64::from(&y)) == b as i64);
+        assert!(i128_of(&y.resize::<2>()) == b);
+        let z: Int<3> = y.resize();
+        let w = z.as_words();
+        assert!(w[0] == b as u64 && w[1] == ((b as u128) >> 64) as u64 && w[2] == if b < 0 { u64::MAX } else { 0 });
+        let z: Int<3> = x.resize();
+        let w = z.as_words();
+        assert!(w[0] == a as u64 && w[1] == (if a < 0 { u64::MAX } else { 0 }) && w[2] == w[1]);
+    }
+    /// from_i8 .. from_i128 (inherent and `From`), `i64::from(I64)`, `i128::from(I128)`
+    fn c13_from_prims(s) {
+        let (a8, a16, a32, a64, a128) = (s.u8() as i8, s.u16() as i16, s.u32() as i32, s.i64(), s.i128());
+        assert!(i64_of(&I64::from_i8(a8)) == a8 as i64 && i64_of(&I64::from(a8)) == a8 as i64);
+        assert!(i64_of(&I64::from_i16(a16)) == a16 as i64 && i64_of(&I64::from(a16)) == a16 as i64);
+        assert!(i64_of(&I64::from_i32(a32)) == a32 as i64 && i64_of(&I64::from(a32)) == a32 as i64);
+        assert!(i64_of(&I64::from_i64(a64)) == a64 && i64_of(&I64::from(a64)) == a64);
+        assert!(i128_of(&I128::from_i8(a8)) == a8 as i128 && i128_of(&I128::from(a8)) == a8 as i128);
+        assert!(i128_of(&I128::from_i16(a16)) == a16 as i128 && i128_of(&I128::from(a16)) == a16 as i128);
+        assert!(i128_of(&I128::from_i32(a32)) == a32 as i128 && i128_of(&I128::from(a32)) == a32 as i128);
+        assert!(i128_of(&I128::from_i64(a64)) == a64 as i128 && i128_of(&I128::from(a64)) == a64 as i128);
+        assert!(i128_of(&I128::from_i128(a128)) == a128 && i128_of(&I128::from(a128)) == a128);
+        assert!(i64::from(mki64(a64)) == a64 && i128::from(mki128(a128)) == a128);
+        let z = Int::<3>::from_i128(a128); let w = z.as_words();
+        assert!(w[0] == a128 as u64 && w[1] == ((a128 as u128) >> 64) as u64 && w[2] == if a128 < 0 { u64::MAX } else { 0 });
+    }
+
+    // ------------------------------------------------------------------ multiplication (restricted operands)
+    /// I64 x I64, b in ALPHA64S, a any: split_mul = (magnitude of the exact i128 product, sign)
+    fn c13_i64_split_mul(s) {
+        let a = s.i64(); let x = mki64(a);
+        let mut k = 0;
+        while k < ALPHA64S.len() {
+            let b = ALPHA64S[k]; let y = mki64(b);
+            let p = a as i128 * b as i128;
+            let (lo, hi, neg) = x.split_mul(&y);
+            assert!((u64_of(&lo) as u128 | ((u64_of(&hi) as u128) << 64)) == p.unsigned_abs());
+            assert!(p == 0 || bool::from(neg) == (p < 0));
+            k += 1;
+        }
+    }
+    /// widening_mul (both operand orders) = the exact i128 product
+    fn c13_i64_widening_mul(s) {
+        let a = s.i64(); let x = mki64(a);
+        let mut k = 0;
+        while k < ALPHA64S.len() {
+            let b = ALPHA64S[k]; let y = mki64(b);
+            let p = a as i128 * b as i128;
+            assert!(i128_of(&x.widening_mul(&y)) == p);
+            assert!(i128_of(&y.widening_mul(&x)) == p);
+            k += 1;
+        }
+    }
+    /// CheckedMul (both operand orders): some exactly when the product is in [MIN, MAX]
+    fn c13_i64_checked_mul(s) {
+        let a = s.i64(); let x = mki64(a);
+        let mut k = 0;
+        while k < ALPHA64.len() {
+            let b = ALPHA64[k]; let y = mki64(b);
+            let want = a.checked_mul(b);
+            match opt(CheckedMul::checked_mul(&x, &y)) { Some(v) => assert!(want == Some(i64_of(&v))), None => assert!(want.is_none()) }
+            match opt(CheckedMul::checked_mul(&y, &x)) { Some(v) => assert!(want == Some(i64_of(&v))), None => assert!(want.is_none()) }
+            k += 1;
+        }
+    }
+    /// Checked<I64> `*` (value * value, value * &): none is sticky, otherwise as CheckedMul
+    fn c13_i64_checked_wrapper_mul_v(s) { checked_wrapper_mul(s, false); }
+    /// Checked<I64> `*` (& * value, & * &)
+    fn c13_i64_checked_wrapper_mul_r(s) { checked_wrapper_mul(s, true); }
+    /// Checked<I64> `*=` (value, reference)
+    fn c13_i64_checked_wrapper_mul_assign(s) {
+        let (a, va, vb, byref) = (s.i64(), s.bool(), s.bool(), s.bool()); let x = mki64(a);
+        let mut k = 0;
+        while k < ALPHA64.len() {
+            let b = ALPHA64[k]; let y = mki64(b);
+            let want = if va && vb { a.checked_mul(b) } else { None };
+            let mut c = ck(x, va); if byref { c *= &ck(y, vb); } else { c *= ck(y, vb); }
+            match opt(c.0) { Some(v) => assert!(want == Some(i64_of(&v))), None => assert!(want.is_none()) }
+            k += 1;
+        }
+    }
+    /// `*` (4 value/reference routes), constant factor in ALPHA64S on the right / on the left: exact when the product fits
+    fn c13_i64_mul_ops_ok_r(s) { mul_ops_ok(s, false); }
+    fn c13_i64_mul_ops_ok_l(s) { mul_ops_ok(s, true); }
+    /// ... and every route panics for every (a, b in ALPHA64S) whose product overflows
+    #[kani::should_panic] fn c13_i64_mul_ops_panic_r(s) { mul_ops_panic(s, false); }
+    #[kani::should_panic] fn c13_i64_mul_ops_panic_l(s) { mul_ops_panic(s, true); }
+    /// I64 x U64, u in UALPHA64S, a any: split_mul_uint, split_mul_uint_right, widening_mul_uint vs the exact product
+    fn c13_i64_mul_uint_wide(s) {
+        let a = s.i64(); let x = mki64(a);
+        let mut k = 0;
+        while k < UALPHA64S.len() {
+            let u = UALPHA64S[k]; let y = mk64(u);
+            let p = a as i128 * u as i128;          // |p| < 2^127
+            let (lo, hi, neg) = x.split_mul_uint(&y);
+            assert!((u64_of(&lo) as u128 | ((u64_of(&hi) as u128) << 64)) == p.unsigned_abs() && bool::from(neg) == (a < 0));
+            let (lo, hi, neg) = x.split_mul_uint_right(&y);
+            assert!((u64_of(&lo) as u128 | ((u64_of(&hi) as u128) << 64)) == p.unsigned_abs() && bool::from(neg) == (a < 0));
+            assert!(i128_of(&x.widening_mul_uint(&y)) == p);
+            k += 1;
+        }
+    }
+    /// CheckedMul<U64> for I64 and checked_mul_uint_right: some exactly when the product is in [MIN, MAX]
+    fn c13_i64_mul_uint_checked(s) {
+        let a = s.i64();
+        let x = mki64(a);
+        let mut k = 0;
+        while k < UALPHA64.len() {
+            let u = UALPHA64[k]; let y = mk64(u);
+            let p = a as i128 * u as i128;
+            let fits = p >= i64::MIN as i128 && p <= i64::MAX as i128;
+            match opt(CheckedMul::checked_mul(&x, &y)) { Some(v) => { assert!(fits); assert!(i64_of(&v) as i128 == p); } None => assert!(!fits) }
+            match opt(x.checked_mul_uint_right(&y)) { Some(v) => { assert!(fits); assert!(i64_of(&v) as i128 == p); } None => assert!(!fits) }
+            k += 1;
+        }
+    }
+    /// `Int * Uint` (4 value/reference routes): exact when the product fits
+    fn c13_i64_mul_uint_ops_ok(s) {
+        let (a, f) = (s.i64(), s.u8()); s.assume(f < 4);
+        let mut k = 0;
+        while k < UALPHA64.len() {
+            let u = UALPHA64[k];
+            let p = a as i128 * u as i128;
+            if p >= i64::MIN as i128 && p <= i64::MAX as i128 { assert!(i64_of(&int_mul_uint_op(f, mki64(a), mk64(u))) as i128 == p); }
+            k += 1;
+        }
+    }
+    #[kani::should_panic]
+    fn c13_i64_mul_uint_ops_panic(s) {
+        let (a, f, sel) = (s.i64(), s.u8(), s.usize()); s.assume(f < 4);
+        let mut k = 0;
+        while k < UALPHA64.len() {
+            let u = UALPHA64[k];
+            let p = a as i128 * u as i128;
+            if sel == k && (p < i64::MIN as i128 || p > i64::MAX as i128) {
+                let _ = int_mul_uint_op(f, mki64(a), mk64(u));
+                no_return();
+            }
+            k += 1;
+        }
+    }
+    /// I128 x I128, b in ALPHA128S, a any: CheckedMul (both orders) against i128::checked_mul
+    fn c13_i128_checked_mul(s) {
+        let a = s.i128(); let x = mki128(a);
+        let mut k = 0;
+        while k < ALPHA128S.len() {
+            let b = ALPHA128S[k]; let y = mki128(b);
+            let want = a.checked_mul(b);
+            match opt(CheckedMul::checked_mul(&x, &y)) { Some(v) => assert!(want == Some(i128_of(&v))), None => assert!(want.is_none()) }
+            match opt(CheckedMul::checked_mul(&y, &x)) { Some(v) => assert!(want == Some(i128_of(&v))), None => assert!(want.is_none()) }
+            k += 1;
+        }
+    }
+    /// thorough: the dense constants I128::MAX and I64::MAX as one factor
+    fn c13t_i128_checked_mul_max(s) {
+        let a = s.i128(); let x = mki128(a);
+        let want = a.checked_mul(i128::MAX);
+        match opt(CheckedMul::checked_mul(&x, &I128::MAX)) { Some(v) => assert!(want == Some(i128_of(&v))), None => assert!(want.is_none()) }
+        match opt(CheckedMul::checked_mul(&I128::MAX, &x)) { Some(v) => assert!(want == Some(i128_of(&v))), None => assert!(want.is_none()) }
+    }
+    /// mixed widths: I128 x I64 -> I128 and I64 x I128 -> I64 with the I64 operand from ALPHA64S
+    fn c13_mixed_checked_mul(s) {
+        let a = s.i128(); let x = mki128(a);
+        let mut k = 0;
+        while k < ALPHA64S.len() {
+            let c = ALPHA64S[k]; let z = mki64(c);
+            let want = a.checked_mul(c as i128);
+            match opt(CheckedMul::checked_mul(&x, &z)) { Some(v) => assert!(want == Some(i128_of(&v))), None => assert!(want.is_none()) }
+            let want64 = want.and_then(|p| if p >= i64::MIN as i128 && p <= i64::MAX as i128 { Some(p as i64) } else { None });
+            match opt(CheckedMul::checked_mul(&z, &x)) { Some(v) => assert!(want64 == Some(i64_of(&v))), None => assert!(want64.is_none()) }
+            k += 1;
+        }
+    }
+    /// squares of a = k * 2^e, k any i8, e in {0, 24, 25, 26, 28, 56}: checked / wrapping / saturating / widening
+    /// square (results are unsigned: the square of the magnitude, checked against 2^64)
+    fn c13_i64_square(s) {
+        let k = s.u8() as i8;
+        const E: [u32; 6] = [0, 24, 25, 26, 28, 56];
+        let mut j = 0;
+        while j < E.len() {
+            let a = (k as i64) << E[j];
+            let x = mki64(a);
+            let m = (k as i64).unsigned_abs() as u128;       // <= 128
+            let sq = (m * m) << (2 * E[j]);                  // < 2^14 * 2^112: exact in u128
+            assert!(u128_of(&x.widening_square()) == sq);
+            let fits = sq <= u64::MAX as u128;
+            match Option::<U64>::from(x.checked_square()) { Some(v) => { assert!(fits); assert!(u64_of(&v) as u128 == sq); } None => assert!(!fits) }
+            assert!(u64_of(&x.wrapping_square()) == sq as u64);
+            assert!(u64_of(&x.saturating_square()) == if fits { sq as u64 } else { u64::MAX });
+            j += 1;
+        }
+    }
 }
